@@ -7,6 +7,7 @@ import (
 	"math"
 	"math/rand"
 	"sort"
+	"sync"
 
 	"github.com/LiskHQ/lisk-engine/pkg/blockchain"
 	"github.com/LiskHQ/lisk-engine/pkg/codec"
@@ -338,6 +339,108 @@ func chainStreams(c *mon.Ctx, h *hostile.Harness) {
 		drive(k, h, r, envelope(base), []target{{"p2p.gossipValidator(postTransactionsAnnouncement)", func(in []byte) string {
 			return resultName(p2p.VerifGossipValidate(ctx, w.pool.VerifTransactionValidator, hostilePeer, in))
 		}}}, driveOpts{sampleAbove: 64, truncSample: 30, random: 10, capMutants: 150})
+		w.n.Log.TakeErrors()
+	})
+
+	// ---------------------------------------------------------------- gossip validator, concurrent
+	// GossipSub runs a topic's validator from one goroutine per received message. The verdict for
+	// a message must be the verdict that message gets on its own: a malformed message that is let
+	// through reaches the subscription handler, which decodes it again and panics on failure.
+	c.Cases("gossip-concurrent", c.N(32, 400), func(k *mon.Case) {
+		w := getWorld(k)
+		if w == nil {
+			return
+		}
+		r := k.R
+		w.pool = txpool.VerifNewPool(ctx, nil, w.n.Log, w.n.Conn, w.n.ABI)
+		var msgs, payloads [][]byte
+		var classes []string
+		for i := 0; i < 5; i++ {
+			tx := w.n.NewTx(w.n.Universe[r.Intn(nValidators)], uint64(r.Intn(5)), uint64(1000+r.Intn(100000)), node.TxVerifyOK, node.TxExecOK, r.Intn(120))
+			base := tx.Encode()
+			payloads, msgs, classes = append(payloads, base), append(msgs, envelope(base)), append(classes, "valid")
+			sm, _ := hostile.SampleStructureMutants(r, base, 5)
+			for _, l := range sm {
+				d := l.Build()
+				payloads, msgs, classes = append(payloads, d), append(msgs, envelope(d)), append(classes, l.Class)
+			}
+		}
+		alone := make([]p2p.ValidationResult, len(msgs))
+		nAcc, nRej := 0, 0
+		for i, m := range msgs {
+			alone[i] = p2p.VerifGossipValidate(ctx, w.pool.VerifTransactionValidator, hostilePeer, m)
+			if alone[i] == p2p.ValidationAccept {
+				nAcc++
+			} else {
+				nRej++
+			}
+		}
+		if nAcc == 0 || nRej == 0 {
+			k.Count("gossip_concurrent_skipped_no_mix", 1)
+			return
+		}
+		shared := p2p.VerifNewGossipValidator(w.pool.VerifTransactionValidator)
+		workers := 2 + r.Intn(7)
+		rounds := 30
+		type miss struct {
+			i   int
+			got p2p.ValidationResult
+		}
+		var mu sync.Mutex
+		var misses []miss
+		var panics []string
+		var wg sync.WaitGroup
+		seeds := make([]int64, workers)
+		for g := range seeds {
+			seeds[g] = r.Int63()
+		}
+		for g := 0; g < workers; g++ {
+			g := g
+			wg.Add(1)
+			go func() {
+				defer wg.Done()
+				defer func() {
+					if p := recover(); p != nil {
+						mu.Lock()
+						panics = append(panics, fmt.Sprint(p))
+						mu.Unlock()
+					}
+				}()
+				rr := rand.New(rand.NewSource(seeds[g]))
+				for q := 0; q < rounds; q++ {
+					for _, i := range rr.Perm(len(msgs)) {
+						if got := shared(ctx, hostilePeer, msgs[i]); got != alone[i] {
+							mu.Lock()
+							if len(misses) < 64 {
+								misses = append(misses, miss{i, got})
+							}
+							mu.Unlock()
+						}
+					}
+				}
+			}()
+		}
+		wg.Wait()
+		k.Eval(workers * rounds * len(msgs))
+		k.Count("calls:p2p.gossipValidator(shared wrapper, concurrent)", workers*rounds*len(msgs))
+		k.Nontrivial(fmt.Sprintf("gossip-concurrent|workers=%d|msgs=%d|acc=%d", workers, len(msgs), nAcc))
+		for _, p := range panics {
+			k.Violation("panic:p2p.gossipValidator(concurrent)", "the topic validator panicked when run for several messages at once", map[string]any{"panic": p})
+		}
+		for _, m := range misses {
+			key := "gossip:verdict-is-not-the-messages-own:well-formed-refused"
+			if m.got == p2p.ValidationAccept {
+				key = "gossip:verdict-is-not-the-messages-own:malformed-accepted"
+			}
+			k.Violation(key, "a gossip message validated while other messages of the topic were being validated got another verdict than on its own", map[string]any{"class": classes[m.i], "own_verdict": resultName(alone[m.i]), "concurrent_verdict": resultName(m.got), "workers": workers})
+			if m.got == p2p.ValidationAccept {
+				// what the node does next with an accepted message
+				h.Call(k, "txpool.onTransactionAnnouncement", classes[m.i], payloads[m.i], func() {
+					w.pool.VerifOnTransactionAnnouncement(p2p.NewEvent(hostilePeer, txpool.RPCEventPostTransactionAnnouncement, payloads[m.i]))
+				})
+				break
+			}
+		}
 		w.n.Log.TakeErrors()
 	})
 
